@@ -14,6 +14,30 @@ pub fn formatted() -> bool {
     FORMATTED.load(std::sync::atomic::Ordering::Relaxed)
 }
 
+/// Owned-string stand-in (`String` in the extracted code): formatted text is opaque (no content), only
+/// the byte length is carried, and `repeat` states std's documented contract — `str::repeat` "will
+/// panic if the capacity would overflow" (`len * n` beyond usize, or beyond isize::MAX in the allocation).
+#[derive(Clone, Copy, Debug, Default)]
+pub struct String {
+    pub len: usize,
+}
+impl String {
+    pub fn new() -> Self {
+        String { len: 0 }
+    }
+    pub fn as_bytes(&self) -> &[u8] {
+        &[]
+    }
+    pub fn len(&self) -> usize {
+        self.len
+    }
+    pub fn repeat(&self, n: usize) -> String {
+        let cap = self.len.checked_mul(n);
+        assert!(cap.is_some() && cap.unwrap() <= isize::MAX as usize, "capacity overflow");
+        String { len: cap.unwrap() }
+    }
+}
+
 pub const SMAX: usize = 4;
 /// Interned string stand-in: content-level behaviour only (byte-wise `Ord`, as `str`).
 #[derive(Clone, Copy, Debug, Default, PartialEq, Eq)]
@@ -39,6 +63,10 @@ impl IStr {
     }
     pub fn as_bytes(&self) -> &[u8] {
         &self.b[..self.n as usize]
+    }
+    /// `str::repeat` through `Deref<Target = str>`: see `String::repeat`
+    pub fn repeat(&self, n: usize) -> String {
+        String { len: self.len() }.repeat(n)
     }
 }
 impl PartialOrd for IStr {
@@ -115,7 +143,7 @@ impl StrValue {
     }
     pub fn to_string(&self) -> String {
         note_format();
-        String::new()
+        String { len: self.0.len() }
     }
 }
 impl<T> From<T> for StrValue
@@ -175,6 +203,10 @@ impl Iterator for ArrIter {
 impl ArrValue {
     pub fn len(&self) -> usize {
         self.n as usize
+    }
+    /// array repetition is C08's subject (RepeatedArray::new); here only its signature
+    pub fn repeated(a: Self, count: usize) -> Option<Self> {
+        a.len().checked_mul(count).map(|_| a)
     }
     pub fn iter(&self) -> ArrIter {
         ArrIter { a: *self, i: 0 }
